@@ -212,11 +212,13 @@ def wrap_checks(g):
                 ctx._depth -= 1
         w._wrapped = True
         return w
+    checks = g.get('CHECKS', {})
+    targets = {id(v) for v in checks.values()}
+    wrapped = {}
     for name, fn in list(g.items()):
-        if name.startswith('check_') and callable(fn) and not getattr(fn, '_wrapped', False):
-            g[name] = entry(fn)
-    if 'CHECKS' in g:
-        g['CHECKS'] = {k: g[v.__name__] for k, v in g['CHECKS'].items()}
+        if callable(fn) and id(fn) in targets and not getattr(fn, '_wrapped', False):
+            wrapped[id(fn)] = g[name] = entry(fn)
+    g['CHECKS'] = {k: wrapped.get(id(v), v) for k, v in checks.items()}
 
 
 def hyp_settings(n, shrink=False):
